@@ -15,7 +15,9 @@ PROP = dict(
          "distinct = distinct record text. Besides random entry sets the stream holds fixed extreme shapes (fan-out 300, 60-syllable "
          "keys, data offsets beyond 16 bits, a leaf of exactly 65535 bytes). The harness oracle additionally evaluates the C11 "
          "statement itself with a reference map on every file (and on the model writer's bytes fed to the real Trie), rebuilds every "
-         "input twice (same order; keys regrouped in another order) for byte identity, sends every seventh input through "
+         "input for byte identity (same order; keys regrouped in another order; keys' first-insertion order shuffled with the "
+         "order within each key kept — a random merge of the per-key insert sequences and the keys in a random order, "
+         "generator_stats shuffled_rewrites), sends every seventh input through "
          "build(path)/Trie::open(path), and runs a separate counted stream of entry sets at and beyond the 16-bit limits "
          "(generator_stats limits_*; thorough tier: every Syllable value as a child of one node, 147832 index records). Keys hold "
          "valid syllable codes only (generator_stats key_syllables_*), boundary values included; every fifth written file is also fed "
@@ -62,9 +64,20 @@ MANIFEST = dict(
          "values = valid codes since the repair of C13's F47 (ValidEntry); validate_index's new syllable check on node records is "
          "covered by validate_write (`writeLoop_syls`), the `try_from(..).unwrap()` of entries() and the fuzzy predicate's "
          "`if let Ok(..) = try_from(n)` are modelled with validCode and cannot fail on a written file. "
-         "`writes_within_limits`: inside the 16-bit/256 MiB limits write succeeds. NOT a theorem: that the bytes depend "
-         "only on the per-key phrase vectors and not on the order in which keys were first inserted (`deterministic` is the literal "
-         "'equal input, equal bytes'); this is checked by the oracle on regrouped inputs. Tie: trie.asn1 / trie.rs constants "
+         "`writes_within_limits`: inside the 16-bit/256 MiB limits write succeeds. 'Equal input gives byte-identical files' for the "
+         "input the property names, a SET of entries: `order_independent` — for all metadata and insert sequences es, es' with the "
+         "same map key -> inserted phrase vector (`∀ k, inserted es k = inserted es' k`) the written bytes (and success of write) are "
+         "identical, although the builder keeps children in first-insertion order and the trees differ; no validity hypothesis "
+         "(Proofs/TrieOrderIndep.lean: `Good_ofEntries` distinct sibling syllables + no dead node for every insert sequence, "
+         "`kids_rel` extensionality per level after the stable sort by syllable, `writeLoop_congr`, `writeLoop_fuel`, `write_ext` = "
+         "`bytes_function_of_map`). Corollaries `same_key_order_same_bytes` (every rearrangement keeping each key's inserts in "
+         "order) and `perm_same_bytes` (the inductively defined `KeySwap`: swaps of adjacent inserts with different keys; "
+         "`keySwap_characterised`: KeySwap es es' <-> for every key the same filtered insert list, Proofs/TrieOrderIndepPerm.lean). "
+         "The hypothesis is exact: `within_key_order_matters` — two single characters under one key in the two orders (same entry "
+         "set) give different bytes (kernel `decide` on that instance). `deterministic` stays the literal 'equal insert sequence, "
+         "equal bytes'. The clause is also evaluated on the implementation: the oracle rebuilds every input with the keys regrouped "
+         "in descending order and with the keys' first-insertion order shuffled (random merge of the per-key insert sequences, and "
+         "keys in random order; generator_stats shuffled_rewrites) through the real TrieBuilder and compares the bytes. Tie: trie.asn1 / trie.rs constants "
          "regenerated every run; byte-for-byte correspondence of writer and reader on generated entry sets and extreme shapes; "
          "oracle = the statement on the real code with a reference map and an independent format parser; the oracle compares the ORDER "
          "of entries() exactly (key sequence = sorted keys with prefix chains reversed, computed independently; every leaf in documented "
